@@ -380,7 +380,10 @@ def run(prog, rep, tier):
     closure_rules(rep, prog)
     paths_rules(rep, prog)
     separates_rules(rep, prog)
-    truthy_node_rule(rep, prog)
+    node_label_truthiness(rep, prog, [U + n_ for n_ in ("pa", "ch", "neighbors", "adj", "na", "ancestors", "descendants", "desc", "semi_directed_paths", "separates",
+                                                       "chain_component", "transitive_closure", "is_supergraph", "is_subgraph")], sets_as_params=("S",))
+    isin_over_sets(rep, prog, [U + n_ for n_ in ("pa", "ch", "neighbors", "adj", "na", "ancestors", "descendants", "desc", "semi_directed_paths", "separates",
+                                                 "chain_component", "transitive_closure")])
     chain_component_rules(rep, prog)
     # zero-pattern dependence of the whole family (the DAG gate's own value sensitivity belongs to C03)
     entries = [(U + n, {"na": "A", "separates": "G", "chain_component": "G"}.get(n, "A")) for n in
